@@ -26,9 +26,9 @@ def _run(ctx):
     pre = [c for c in lib.calls_named(hs, r"nom::sequence::preceded$")]
     ws = any("white_space" in hs.oname(a, 3) for c in pre for a in c.args)
     ctx.ob("R-TABLE", "iso|hexstring-whitespace", ws, "white-space is skipped before each hex digit", hs.where(), what="hexadecimal strings no longer allow white-space between digits")
-    cl = F.fn("parser::hexadecimal_string::{closure#1}")
-    shl = [cl.rvname(s["rv"], 3) for bi, si, s in cl.stmts() if "lhs" in s and s["rv"]["k"] == "bin" and s["rv"]["op"].startswith("Shl")]
-    ctx.ob("R-TABLE", "iso|hexstring-odd-digit", any(re.match(r"^Shl\(c,4\)$", t) for t in shl), "the first digit of a pair is stored as c << 4 (an odd final digit is padded with 0)", cl.where(),
+    shl = [x.rvname(s["rv"], 3) for x in lib.local_scope(F, hs) for bi, si, s in x.stmts() if "lhs" in s and s["rv"]["k"] == "bin" and s["rv"]["op"].startswith("Shl")]
+    cl = hs
+    ctx.ob("R-TABLE", "iso|hexstring-odd-digit", any(re.match(r"^Shl\([^,()]+(\[[^\]]*\])?,4\)$", t) for t in shl), "the first digit of a pair is stored as digit << 4 (an odd final digit is padded with 0)", cl.where(),
            what="the first hex digit of a pair is no longer stored in the high nibble")
     # real numbers: `4.`, `.5`, signs
     rb = F.fn("parser::real")
